@@ -616,47 +616,52 @@ func c17(r *core.Run) {
 			return
 		}
 		r.Fn(core.FuncName(take))
-		fetchName := take.Params[2].Name()
-		isFetch := core.CallOfValue(func(v ssa.Value) bool { return core.IsParam(fetchName)(v) || core.IsFreeVar(fetchName)(v) })
-		for _, c := range core.Instrs(take, isFetch) {
-			o.Fail(p.InstrPos(c), "Take calls fetch outside the single-flight barrier")
-		}
-		var body *ssa.Function
-		for _, a := range take.AnonFuncs {
-			if len(core.Instrs(a, isFetch)) > 0 {
-				if body != nil {
-					o.Fail(p.Pos(a.Pos()), "fetch is called from more than one closure")
-				}
-				body = a
-			}
-		}
-		if !o.Need(body != nil, "the closure of Take that calls fetch") {
-			return
-		}
-		r.Fn(core.FuncName(body))
+		// Values are resolved through the closure captures reachable from Take (parameter spill
+		// slots, single-assignment locals, by-value bindings, the receiver of a bound method
+		// value), never by the names of variables.
+		env := newC17Env(take)
+		isKey, fetchVal := env.isParam(1), env.isParam(2)
+		isFetch := core.CallOfValue(fetchVal)
 		isBarrier := core.Or(core.CallMethod("syncx.SingleFlight", "Do"), core.CallMethod("syncx.SingleFlight", "DoEx"))
 		barErr := func(b ssa.CallInstruction) int { return b.Common().Signature().Results().Len() - 1 } // the error is the last result of Do / DoEx
 		bar := core.Calls(take, isBarrier)
 		o.Site(len(bar), core.FuncName(take))
-		okBar := false
+		// the single-flight body: the function value handed to c.barrier.Do(key, …)
+		var body *ssa.Function
+		var bodyMC *ssa.MakeClosure
 		for _, b := range bar {
 			a := core.Args(b)
 			if !core.IsFieldLoad(a[0], "Cache.barrier") {
 				continue
 			}
-			if mc, isMC := a[2].(*ssa.MakeClosure); isMC && mc.Fn == body && paramIs(take.Params[1])(a[1]) {
-				okBar = true
-			}
-		}
-		if !okBar {
-			o.Fail(p.Pos(take.Pos()), "the fetching closure is not run through c.barrier.Do(key, …)")
-		}
-		for _, in := range core.Instrs(take, func(in ssa.Instruction) bool { return true }) {
-			mc, ok := in.(*ssa.MakeClosure)
-			if !ok || mc.Fn != body {
+			fn, mc := env.funcOf(a[2])
+			if fn == nil || fn.Blocks == nil || len(core.Instrs(fn, isFetch)) == 0 {
 				continue
 			}
-			for _, ref := range *mc.Referrers() {
+			if body != nil && body != fn {
+				o.Fail(p.InstrPos(b), "fetch is called from more than one single-flight body")
+			}
+			body, bodyMC = fn, mc
+			if !isKey(a[1]) {
+				o.Fail(p.InstrPos(b), "the flight is keyed by %s, not by key: callers of different keys share a fetch / callers of one key do not", core.Describe(a[1]))
+			}
+		}
+		// fetch runs nowhere else: not in Take itself, not in another function value made by Take
+		for _, f := range env.fns {
+			if f == body {
+				continue
+			}
+			for _, c := range core.Instrs(f, isFetch) {
+				o.Fail(p.InstrPos(c), "%s calls fetch outside the single-flight barrier", core.FuncName(f))
+			}
+		}
+		if body == nil {
+			o.Fail(p.Pos(take.Pos()), "the fetching closure is not run through c.barrier.Do(key, …)")
+			return
+		}
+		r.Fn(core.FuncName(body))
+		if bodyMC != nil {
+			for _, ref := range *bodyMC.Referrers() {
 				if c, ok := ref.(*ssa.Call); !ok || !isBarrier(c) {
 					o.Fail(p.InstrPos(ref), "the fetching closure is also used outside barrier.Do")
 				}
@@ -692,7 +697,7 @@ func c17(r *core.Run) {
 		}
 		hitAtom := core.BoolVal(func(v ssa.Value) bool { return core.IsResult(v, 1, core.Is(instrsOfCalls(lookups)...)) })
 		for _, l := range lookups {
-			if !core.IsFreeVar(take.Params[1].Name())(core.Args(l)[1]) {
+			if !isKey(core.Args(l)[1]) {
 				o.Fail(p.InstrPos(l), "the second lookup uses another key")
 			}
 		}
@@ -729,7 +734,7 @@ func c17(r *core.Run) {
 		}
 		for _, s := range sets {
 			a := core.Args(s.(ssa.CallInstruction))
-			if !core.IsFreeVar(take.Params[1].Name())(a[1]) {
+			if !isKey(a[1]) {
 				o.Fail(p.InstrPos(s), "the fetched value is cached under another key")
 			}
 			if !core.IsResult(a[2], 0, core.Is(fetches...)) {
